@@ -36,6 +36,8 @@ fn history(cfg: &Cfg, rep: &mut Report, permissioned: bool, h: u64, steps: usize
     let target = e.register(CountTarget, ());
     for t in &tokens {
         invoke::<()>(e, t, "mint", args!(e, user, 10_000i128)).unwrap();
+        // the relayer holds funds too, so that a forward whose user is also the fee recipient can succeed
+        invoke::<()>(e, t, "mint", args!(e, relayer, 10_000i128)).unwrap();
     }
     let mut allowed: BTreeSet<usize> = BTreeSet::new();
     let mut target_calls: u32 = 0;
@@ -76,11 +78,12 @@ fn history(cfg: &Cfg, rep: &mut Report, permissioned: bool, h: u64, steps: usize
                 }
             }
             // enumeration mirrors the set
-            let (count, listed, flags): (u32, Vec<usize>, Vec<bool>) = e.as_contract(&fwd, || {
+            // raw entries first (reads cannot fail), the library's own answer afterwards
+            let (count, listed, index_of): (u32, Vec<usize>, Vec<Option<u32>>) = e.as_contract(&fwd, || {
                 let count: u32 = e.storage().instance().get(&FeeAbstractionStorageKey::Count).unwrap_or(0);
                 let listed: Vec<usize> = (0..count).map(|i| e.storage().persistent().get::<_, Address>(&FeeAbstractionStorageKey::Token(i)).map_or(usize::MAX, |a| tokens.iter().position(|x| *x == a).unwrap_or(usize::MAX - 1))).collect();
-                let flags: Vec<bool> = tokens.iter().map(|t| stellar_fee_abstraction::is_allowed_fee_token(e, t)).collect();
-                (count, listed, flags)
+                let index_of: Vec<Option<u32>> = tokens.iter().map(|t| e.storage().persistent().get::<_, u32>(&FeeAbstractionStorageKey::TokenIndex(t.clone()))).collect();
+                (count, listed, index_of)
             });
             let mut sorted = listed.clone();
             sorted.sort();
@@ -88,6 +91,21 @@ fn history(cfg: &Cfg, rep: &mut Report, permissioned: bool, h: u64, steps: usize
             rep.check("inv", count as usize == allowed.len() && sorted == wantv, &format!("C19/inv/{kind}/allow-list-enumeration"), || format!("Count {count}, Token(i) = {listed:?}, allowed set {allowed:?}"));
             let beyond: bool = e.as_contract(&fwd, || e.storage().persistent().has(&FeeAbstractionStorageKey::Token(count)));
             rep.check("inv", !beyond, &format!("C19/inv/{kind}/allow-list-entry-beyond-count"), || format!("Token({count}) exists with Count {count}"));
+            // the reverse map: TokenIndex(t) exists exactly for allowed tokens and points at t's slot
+            for (i, ix) in index_of.iter().enumerate() {
+                let ok = match ix {
+                    Some(k) => allowed.contains(&i) && listed.get(*k as usize) == Some(&i),
+                    None => !allowed.contains(&i),
+                };
+                rep.check("inv", ok, &format!("C19/inv/{kind}/allow-list-reverse-index"), || format!("TokenIndex(token {i}) = {ix:?}, Token(i) = {listed:?}, allowed set {allowed:?}"));
+            }
+            // called natively inside the forwarder's frame: a trap surfaces as a panic of this process
+            let flags = std::panic::catch_unwind(std::panic::AssertUnwindSafe(|| e.as_contract(&fwd, || tokens.iter().map(|t| stellar_fee_abstraction::is_allowed_fee_token(e, t)).collect::<Vec<bool>>())));
+            let Ok(flags) = flags else {
+                rep.check("ref", false, &format!("C19/query/{kind}/is_allowed_fee_token/refused"), || format!("is_allowed_fee_token trapped with allowed set {allowed:?}, Token(i) = {listed:?}, TokenIndex = {index_of:?}: {}", crate::last_panic()));
+                rep.end_history();
+                return;
+            };
             for (i, f) in flags.iter().enumerate() {
                 let wantf = allowed.is_empty() || allowed.contains(&i);
                 rep.check("ref", *f == wantf, &format!("C19/ref/{kind}/is_allowed_fee_token"), || format!("token {i}: is_allowed {f}, allowed set {allowed:?}"));
@@ -143,7 +161,10 @@ fn history(cfg: &Cfg, rep: &mut Report, permissioned: bool, h: u64, steps: usize
         if relayer_signs {
             entries.push((who_relayer.clone(), Inv::new(&fwd, "forward", call_args.clone())));
         }
-        // pre-state
+        // pre-state: every balance of every token for every party (third parties must not move)
+        let parties: [&Address; 5] = [&user, &relayer, &stranger, &fwd, &target];
+        let snapshot = || -> Vec<i128> { tokens.iter().flat_map(|t| parties.iter().map(|p| bal(t, p)).collect::<Vec<_>>()).collect() };
+        let pre_all = snapshot();
         let pre_user = bal(tok, &who_user);
         let pre_rec = bal(tok, &recipient);
         let pre_allow = alw(tok, &who_user);
@@ -166,6 +187,13 @@ fn history(cfg: &Cfg, rep: &mut Report, permissioned: bool, h: u64, steps: usize
         let post_rec = bal(tok, &recipient);
         let post_allow = alw(tok, &who_user);
         let post_calls: u32 = invoke(e, &target, "count", args!(e, 7u32)).unwrap();
+        let post_all = snapshot();
+        {
+            // entries allowed to move on success: the fee token's balance of the user and of the recipient
+            let moved: Vec<(usize, usize, i128, i128)> = (0..pre_all.len()).filter(|i| pre_all[*i] != post_all[*i]).map(|i| (i / 5, i % 5, pre_all[i], post_all[i])).collect();
+            let ok = moved.iter().all(|(t, p, _, _)| got.is_ok() && *t == ti && (*parties[*p] == who_user || *parties[*p] == recipient));
+            rep.check("fee", ok, &format!("C19/fee/{kind}/forward/other-balance-moved"), || format!("forward ({}) of token {ti} moved (token, party, before, after) {moved:?}; parties are [user, relayer, stranger, forwarder, target]", tag(&got)));
+        }
         let feecls = if fee <= 0 { "fee<=0" } else if fee > max { "fee>max" } else if fee == max { "fee=max" } else { "fee<max" };
         let expcls = if exp < cur { "expired" } else if exp == cur { "at-cur" } else if exp > max_live { "beyond-max" } else { "future" };
         let alcls = if pre_allow < max { "allow<max" } else if pre_allow == max { "allow=max" } else { "allow>max" };
